@@ -184,6 +184,13 @@ func (d *HTTPProxyDialer) DialContextR(ctx context.Context, network, addr string
 		conn.Close()
 		return nil, nil, err
 	case res := <-resCh:
+		if res.StatusCode/100 == 2 {
+			// What follows the head of a successful response to CONNECT is the tunnel, whatever
+			// Content-Length or Transfer-Encoding it carries (RFC 9110 section 9.3.6).
+			res.Body = http.NoBody
+			res.ContentLength = 0
+			res.TransferEncoding = nil
+		}
 		return res, conn, nil
 	}
 }
